@@ -33,7 +33,13 @@ func (fr *Frame) pow2(n string) string {
 		fc.declSet[key] = true
 		fc.permFact(sApp(">=", t, "1"))
 		fc.permFact(sImp(sEq(n, "0"), sEq(t, "1")))
+		isBl := strings.HasPrefix(n, "(bitlen ")
 		for _, o := range fc.pow2Args {
+			// pairwise monotonicity only against exponents that are not themselves bit lengths of other
+			// values (those pairs are quadratically many and are not what comparisons of sizes need)
+			if isBl && strings.HasPrefix(o, "(bitlen ") {
+				continue
+			}
 			ot := sApp("pow2", o)
 			fc.permFact(sAnd(
 				sImp(sApp("<", o, n), sApp("<=", sApp("*", "2", ot), t)),
@@ -78,6 +84,12 @@ func (fr *Frame) nativeCall(b *ssa.BasicBlock, st *State, name string, callee *s
 	case "math/big.NewInt":
 		fr.trust("math/big.NewInt: fresh object holding the argument")
 		r := fr.alloc(st, "big")
+		if activeLogs[fc] == nil {
+			if fc.localRefs == nil {
+				fc.localRefs = map[string]bool{}
+			}
+			fc.localRefs[r] = true
+		}
 		fr.setBV(st, r, fr.scalar(args[0]))
 		if _, ok := numeral(fr.scalar(args[0])); ok {
 			fc.knownBig[r] = fr.scalar(args[0])
